@@ -1,0 +1,7 @@
+//go:build verif
+
+package text
+
+// VerifC14HardLines returns the lines Text.Draw draws when Softwrap is false
+// (read-only; for the C14 / C16 harnesses).
+func VerifC14HardLines(s string) []string { return hardLines(s) }
